@@ -455,6 +455,33 @@ func unknownCase(c *C, r *Root, m protoreflect.Message, subT protoreflect.Messag
 		c.Compare("dec: model vs dynamicpb with the sub-schema (unknown fields kept in input order, bytes unchanged)", in, "ok "+subFlat.Snap(s), c.Ask("dec 0 10000 0 %s", vh.Hex(b)))
 		c.Compare("dec(discard): model vs DiscardUnknown", in, "ok "+discardSnap(subT, subFlat, b), c.Ask("dec 0 10000 1 %s", vh.Hex(b)))
 	}
+	// the same records with non-minimal (overlong but legal) tag varints: same content, and what is kept as
+	// unknown must still be parseable and re-encode to the same content
+	if nb := denormTags(c, b); !bytes.Equal(nb, b) {
+		in2 := map[string]any{"type": r.Name, "dropped": dropped, "bytes": vh.Hex(nb), "canonical": vh.Hex(b)}
+		for _, mt := range []protoreflect.MessageType{r.MT, r.DT, subT} {
+			for _, lazy := range []bool{false, true} {
+				x, y := mt.New(), mt.New()
+				e1, e2 := unm(lazy).Unmarshal(nb, x.Interface()), unm(lazy).Unmarshal(b, y.Interface())
+				if !c.Check((e1 == nil) == (e2 == nil), fmt.Sprintf("non-minimal tags: err=%v, canonical input: err=%v", e1, e2), in2, "") || e1 != nil {
+					continue
+				}
+				// the reflection decoder keeps an unknown record byte for byte (tag spelling included), the
+				// table-driven one re-encodes the tag: compare up to the spelling of top-level unknown tags
+				normTopUnknownTags(x)
+				c.Check(proto.Equal(x.Interface(), y.Interface()), "decoding records with non-minimal tags gives a different message than the canonical encoding", in2, "")
+				rb, err := partial.Marshal(x.Interface())
+				if c.Check(err == nil, fmt.Sprintf("Marshal after decoding non-minimal tags: %v", err), in2, "") {
+					z := mt.New()
+					zerr := unm(false).Unmarshal(rb, z.Interface())
+					normTopUnknownTags(z)
+					c.Check(zerr == nil && proto.Equal(z.Interface(), y.Interface()), "unknown fields decoded from non-minimal tags do not survive re-encoding", in2, "")
+					c.Check(proto.Size(x.Interface()) == len(rb), "Size != len(Marshal) after decoding non-minimal tags", in2, "")
+				}
+			}
+		}
+		c.Hist("denormalized-tags")
+	}
 	// re-encode and decode with the full schema
 	b2, err := partial.Marshal(s.Interface())
 	c.Check(err == nil, "re-encoding the sub-schema message fails", in, "")
@@ -482,6 +509,55 @@ func unknownCase(c *C, r *Root, m protoreflect.Message, subT protoreflect.Messag
 	if hasUnknownAnywhere(s) {
 		c.Hist("with-unknown")
 	}
+}
+
+// normTopUnknownTags rewrites the unknown fields of m (top level only) with minimal tag varints; it leaves them
+// untouched when they do not parse.
+func normTopUnknownTags(m protoreflect.Message) {
+	u := m.GetUnknown()
+	var out []byte
+	for rest := []byte(u); len(rest) > 0; {
+		num, typ, tn := protowire.ConsumeTag(rest)
+		if tn < 0 {
+			return
+		}
+		vn := protowire.ConsumeFieldValue(num, typ, rest[tn:])
+		if vn < 0 {
+			return
+		}
+		out = protowire.AppendTag(out, num, typ)
+		out = append(out, rest[tn:tn+vn]...)
+		rest = rest[tn+vn:]
+	}
+	m.SetUnknown(out)
+}
+
+// denormTags re-encodes the tag varint of some top-level records with redundant continuation bytes.
+func denormTags(c *C, b []byte) []byte {
+	var out []byte
+	for rest := b; len(rest) > 0; {
+		num, typ, tn := protowire.ConsumeTag(rest)
+		if tn < 0 {
+			return b
+		}
+		vn := protowire.ConsumeFieldValue(num, typ, rest[tn:])
+		if vn < 0 {
+			return b
+		}
+		tag := append([]byte{}, rest[:tn]...)
+		if c.Rand.Intn(2) == 0 && tn < 8 {
+			pad := 1 + c.Rand.Intn(2)
+			tag[len(tag)-1] |= 0x80
+			for i := 0; i < pad-1; i++ {
+				tag = append(tag, 0x80)
+			}
+			tag = append(tag, 0x00)
+		}
+		out = append(out, tag...)
+		out = append(out, rest[tn:tn+vn]...)
+		rest = rest[tn+vn:]
+	}
+	return out
 }
 
 func discardSnap(subT protoreflect.MessageType, subFlat *Flat, b []byte) string {
